@@ -9,7 +9,8 @@ import (
 func formatForConsole(argumentList []Value) string {
 	output := []string{}
 	for _, argument := range argumentList {
-		output = append(output, fmt.Sprintf("%v", argument))
+		// Not through fmt, which recovers a panic raised while converting.
+		output = append(output, argument.string())
 	}
 	return strings.Join(output, " ")
 }
